@@ -30,7 +30,11 @@ pub const MENU: &[(&str, bool)] = &[
     ("(+ 1 2)", false),
     ("(define (p) (display \"in-p\") (newline))\n(p)\n(p)", false),
     ("(display (let ((a 1))\n           (list a 2)))", false),
-    ("(display \"two\nlines \\\" and\n a third\")", false),
+    ("(display \"two  \nlines\t\n \\\" and a third\")", false),
+    // numbers are binary32 in the binary exactly as through the library interface
+    ("(display (list (= 16777217 16777216.0) (max 16777217 1.0) (/ 1 3.0) (* 1.1 1.1)))", false),
+    // a case whose key has an effect: evaluated once, whatever clause matches
+    ("(display (case (begin (display \"k\") (+ 1 1)) ((1) 'one) ((2) 'two) (else 'other)))", false),
     ("(car '())", true),
     ("(undefined-procedure 1)", true),
     ("(display\n  (vector-ref (vector 1) 5))", true),
@@ -41,6 +45,8 @@ pub const MENU: &[(&str, bool)] = &[
     ("(set! nope 1)", true),
     ("(display (cadr '(1)))", true),
     ("(if)", true),
+    // a fault raised inside a procedure of the bundled library
+    ("(for-each 5 '(1 2))", true),
 ];
 
 /// texts that cannot be read as a datum; only ever the LAST thing in a file (what matters is how
